@@ -1137,6 +1137,14 @@ func docMain(args []string) {
 		b, err := os.ReadFile(*replay)
 		must(err)
 		must(json.Unmarshal(b, &rf))
+		if rf.Case.Mode == "dupname" {
+			var dr struct {
+				Case dupCase `json:"case"`
+			}
+			must(json.Unmarshal(b, &dr))
+			os.Stdout.Write(jsonLine(runDupCase(dr.Case)))
+			return
+		}
 		if rf.Case.Mode == "include" {
 			evs := runIncludeCase(rf.Case)
 			os.Stdout.Write(jsonLine(evs[len(evs)-1]))
@@ -1155,7 +1163,7 @@ func docMain(args []string) {
 	rng := newRand(*seed, "doc")
 	stt := newStats()
 	w := newEvWriter(*out, 20000)
-	prefixes := []string{"", "/", "https://x.org", "https://x.org/", "/api/v1", "https://x.org/api//", "//", "/a/../b/./"} // (a prefix is taken as it is: nothing in it is cleaned)
+	prefixes := []string{"", "/", "https://x.org", "https://x.org/", "/api/v1", "https://x.org/api//", "//", "/a/../b/./", "https://x.org/my%20api", "/p%s/%d/100%"} // (a prefix is taken as it is: nothing in it is cleaned)
 	var sysDocs []dDoc
 	if *systematic {
 		all := []string{"a", "m", "n", "o", "m2", "o2"}
@@ -1278,6 +1286,12 @@ func docMain(args []string) {
 		}
 		b, _ := json.Marshal(d)
 		stt.distinct(string(b))
+		w.Emit(ev, c)
+	}
+	for _, c := range dupCases() {
+		ev := runDupCase(c)
+		stt.Calls += 24
+		stt.class("dupname:" + ev.Ret)
 		w.Emit(ev, c)
 	}
 	for i := 0; i < *walks; i++ {
